@@ -3,3 +3,880 @@ From BVA Require Import Base.Prelude Base.Result Base.Words Base.Limbs.
 From BVA Require Import Model.Core Model.Ops Model.Arith Model.Conv Model.Auto Model.Run Spec.Spec Spec.Prop.
 From BVA Require Import Proofs.Common Proofs.Rechunk Proofs.Lift.
 From Coq Require Import ZifyBool ZifyN ZifyNat.
+From BVA Require Import Proofs.Edit Proofs.Slice Proofs.Shift Proofs.Rot.
+
+(* Value-level (bvx) theorems for the editing operations of Model/Auto.v: constructors, get/set,
+   push/pop/resize, reserve/shrink, copy_range/split_off, shifts, rotations, Extend/FromIterator. *)
+
+Definition kind_ok (k : kind) : Prop := match k with KF w n => std_width w /\ 0 < n | _ => True end.
+
+(* ------------------------------------------------------------------ infrastructure *)
+
+Lemma Good_pos a : Good a -> 0 < xw a.
+Proof. intros [_ H]. apply std_width_pos. assumption. Qed.
+
+Lemma Good_wv a : Good a -> canon_wv (xw a) (xv a).
+Proof. intros [H _]. apply Canon_wv. assumption. Qed.
+
+Lemma xw_with a v : xw (x_with a v) = xw a.
+Proof. destruct a; reflexivity. Qed.
+Lemma xv_with a v : xv (x_with a v) = v.
+Proof. destruct a; reflexivity. Qed.
+Lemma xlen_with a v : xlen (x_with a v) = wl v.
+Proof. destruct a; reflexivity. Qed.
+Lemma x_with_id a : x_with a (xv a) = a.
+Proof. destruct a; reflexivity. Qed.
+Lemma blen_abs a : blen (abs a) = xlen a.
+Proof. reflexivity. Qed.
+
+Lemma abs_of r n x : Canon r -> xlen r = n -> val r = x -> abs r = mkbv n x.
+Proof. intros H <- <-. apply abs_Canon. assumption. Qed.
+
+Lemma abs_Good a : Good a -> abs a = mkbv (xlen a) (val a).
+Proof. intros [H _]. apply abs_Canon. assumption. Qed.
+
+Lemma Good_val_lt a : Good a -> val a < 2 ^ xlen a.
+Proof. intros [H _]. apply val_lt. assumption. Qed.
+
+(* capacity in terms of the storage *)
+Lemma cap_eq a : Canon a -> x_capacity a = xw a * lenw (xdata a).
+Proof.
+  intros [_ Hx]. destruct a as [w v|v|[|] v]; cbn [x_capacity xw xdata xv]; unfold capw, xdata; cbn [xv]; try reflexivity.
+  rewrite Hx. reflexivity.
+Qed.
+
+(* rebuilding a value of the same type around new canonical storage *)
+Lemma Good_with a v (s : bv) :
+  Good a -> canon_wv (xw a) v -> (lenw (wd v) = lenw (xdata a) \/ is_fixed a = false) ->
+  mkbv (wl v) (raw (xw a) (wd v)) = s ->
+  Good (x_with a v) /\ kind_of (x_with a v) = kind_of a /\ abs (x_with a v) = s.
+Proof.
+  intros [[Hc Hx] Hs] Hv Hl <-.
+  assert (Canon (x_with a v)) as HC.
+  { destruct a as [w u|u|[|] u]; cbn [x_with xw xv is_fixed xdata] in *; (split; [exact Hv|]); try exact Hx; try exact I.
+    destruct Hl as [Hl|Hl]; [|discriminate]. rewrite Hl. exact Hx. }
+  split; [split; [exact HC|rewrite xw_with; exact Hs]|]. split.
+  - destruct a as [w u|u|[|] u]; cbn [x_with kind_of is_fixed xdata xv] in *; try reflexivity.
+    destruct Hl as [Hl|Hl]; [|discriminate]. rewrite Hl. reflexivity.
+  - apply abs_of; [exact HC|apply xlen_with|]. unfold val, xdata. rewrite xw_with, xv_with. reflexivity.
+Qed.
+
+(* values of the three types from canonical storage *)
+Lemma make_F w n v s : std_width w -> canon_wv w v -> lenw (wd v) = n -> mkbv (wl v) (raw w (wd v)) = s ->
+  Good (XF w v) /\ kind_matches (KF w n) (XF w v) = true /\ abs (XF w v) = s.
+Proof.
+  intros Hs Hv Hn <-.
+  assert (Canon (XF w v)) as HC by (apply Canon_XF; [assumption|apply std_width_pos; assumption|apply std_width_mod8; assumption]).
+  split; [split; assumption|]. split.
+  - cbn [kind_matches]. rewrite Hn, !N.eqb_refl. reflexivity.
+  - apply abs_of; [assumption|reflexivity|reflexivity].
+Qed.
+
+Lemma make_D v s : canon_wv 64 v -> mkbv (wl v) (raw 64 (wd v)) = s ->
+  Good (XD v) /\ kind_matches KD (XD v) = true /\ abs (XD v) = s.
+Proof.
+  intros Hv <-. assert (Canon (XD v)) as HC by (apply Canon_XD; assumption).
+  split; [apply Good_of_Canon_D; assumption|]. split; [reflexivity|].
+  apply abs_of; [assumption|reflexivity|reflexivity].
+Qed.
+
+Lemma make_A fx v s : canon_wv 64 v -> (fx = true -> lenw (wd v) = 2) -> mkbv (wl v) (raw 64 (wd v)) = s ->
+  Good (XA fx v) /\ kind_matches KA (XA fx v) = true /\ abs (XA fx v) = s.
+Proof.
+  intros Hv Hl <-.
+  assert (Canon (XA fx v)) as HC.
+  { destruct fx; [apply Canon_XA_fixed; [assumption|apply Hl; reflexivity]|apply Canon_XA_dyn; assumption]. }
+  split; [apply Good_of_Canon_A; assumption|]. split; [reflexivity|].
+  apply abs_of; [assumption|reflexivity|reflexivity].
+Qed.
+
+(* ------------------------------------------------------------------ constructors *)
+
+Theorem k_zeros_spec k len : kind_ok k ->
+  (fits k len = false -> k_zeros k len = Panic) /\
+  (fits k len = true -> exists r, k_zeros k len = Ok r /\ Good r /\ kind_matches k r = true /\ abs r = s_zeros len).
+Proof.
+  intros Hk. destruct k as [w n| |]; unfold fits; cbn [kind_fixed kind_cap negb orb k_zeros].
+  - destruct Hk as [Hs _]. split; intros H.
+    + apply N.leb_gt in H. rewrite f_zeros_panics by assumption. reflexivity.
+    + apply N.leb_le in H. destruct (f_zeros_spec w n len H) as (v & -> & Hc & Hl & Hn & Hr). cbn [bind].
+      eexists. split; [reflexivity|]. apply make_F; try assumption. rewrite Hl, Hr. reflexivity.
+  - split; [discriminate|]. intros _. destruct (d_zeros_spec len) as (Hc & Hl & Hr & _).
+    eexists. split; [reflexivity|]. apply make_D; [assumption|]. rewrite Hl, Hr. reflexivity.
+  - split; [discriminate|]. intros _. unfold BVP_CAP, BVP_W, BVP_N. destruct (N.leb_spec len 128) as [H|H].
+    + destruct (f_zeros_spec 64 2 len) as (v & -> & Hc & Hl & Hn & Hr); [lia|]. cbn [bind].
+      eexists. split; [reflexivity|]. apply make_A; [assumption|intros _; assumption|]. rewrite Hl, Hr. reflexivity.
+    + destruct (d_zeros_spec len) as (Hc & Hl & Hr & _).
+      eexists. split; [reflexivity|]. apply make_A; [assumption|discriminate|]. rewrite Hl, Hr. reflexivity.
+Qed.
+
+Theorem k_ones_spec k len : kind_ok k ->
+  (fits k len = false -> k_ones k len = Panic) /\
+  (fits k len = true -> exists r, k_ones k len = Ok r /\ Good r /\ kind_matches k r = true /\ abs r = s_ones len).
+Proof.
+  intros Hk. destruct k as [w n| |]; unfold fits; cbn [kind_fixed kind_cap negb orb k_ones].
+  - destruct Hk as [Hs _]. split; intros H.
+    + apply N.leb_gt in H. rewrite f_ones_panics by assumption. reflexivity.
+    + apply N.leb_le in H.
+      destruct (f_ones_spec w n len (std_width_pos w Hs) H) as (v & -> & Hc & Hl & Hn & Hr). cbn [bind].
+      eexists. split; [reflexivity|]. apply make_F; try assumption. rewrite Hl, Hr. reflexivity.
+  - split; [discriminate|]. intros _. destruct (d_ones_spec len) as (Hc & Hl & Hr & _).
+    eexists. split; [reflexivity|]. apply make_D; [assumption|]. rewrite Hl, Hr. reflexivity.
+  - split; [discriminate|]. intros _. unfold BVP_CAP, BVP_W, BVP_N. destruct (N.leb_spec len 128) as [H|H].
+    + destruct (f_ones_spec 64 2 len) as (v & -> & Hc & Hl & Hn & Hr); [lia|lia|]. cbn [bind].
+      eexists. split; [reflexivity|]. apply make_A; [assumption|intros _; assumption|]. rewrite Hl, Hr. reflexivity.
+    + destruct (d_ones_spec len) as (Hc & Hl & Hr & _).
+      eexists. split; [reflexivity|]. apply make_A; [assumption|discriminate|]. rewrite Hl, Hr. reflexivity.
+Qed.
+
+Lemma d_with_capacity_spec c :
+  canon_wv 64 (d_with_capacity c) /\ wl (d_with_capacity c) = 0 /\ raw 64 (wd (d_with_capacity c)) = 0 /\
+  c <= 64 * lenw (wd (d_with_capacity c)).
+Proof.
+  unfold d_with_capacity. cbn [wd wl]. rewrite raw_zerosw, lenw_zerosw.
+  split; [apply canon_zeros; lia|]. split; [reflexivity|]. split; [reflexivity|apply cfbl_d_ge].
+Qed.
+
+Theorem k_with_capacity_spec k c : kind_ok k ->
+  exists r, k_with_capacity k c = Ok r /\ Good r /\ kind_matches k r = true /\ abs r = s_zeros 0 /\
+            (kind_fixed k = false -> c <= x_capacity r).
+Proof.
+  intros Hk. destruct k as [w n| |]; cbn [kind_fixed k_with_capacity]; unfold f_with_capacity.
+  - destruct Hk as [Hs _].
+    destruct (f_zeros_spec w n 0) as (v & -> & Hc & Hl & Hn & Hr); [lia|]. cbn [bind].
+    eexists. split; [reflexivity|]. rewrite <- !and_assoc. split; [|discriminate]. rewrite !and_assoc.
+    apply make_F; try assumption. rewrite Hl, Hr. reflexivity.
+  - destruct (d_with_capacity_spec c) as (Hc & Hl & Hr & Hcap).
+    eexists. split; [reflexivity|]. rewrite <- !and_assoc. split; [|intros _; exact Hcap]. rewrite !and_assoc.
+    apply make_D; [assumption|]. rewrite Hl, Hr. reflexivity.
+  - unfold BVP_CAP, BVP_W, BVP_N. destruct (N.leb_spec c 128) as [H|H].
+    + destruct (f_zeros_spec 64 2 0) as (v & -> & Hc & Hl & Hn & Hr); [lia|]. cbn [bind].
+      eexists. split; [reflexivity|]. rewrite <- !and_assoc. split; [|intros _; exact H]. rewrite !and_assoc.
+      apply make_A; [assumption|intros _; assumption|]. rewrite Hl, Hr. reflexivity.
+    + destruct (d_with_capacity_spec c) as (Hc & Hl & Hr & Hcap).
+      eexists. split; [reflexivity|]. rewrite <- !and_assoc. split; [|intros _; exact Hcap]. rewrite !and_assoc.
+      apply make_A; [assumption|discriminate|]. rewrite Hl, Hr. reflexivity.
+Qed.
+
+(* ------------------------------------------------------------------ get / set *)
+
+Theorem x_get_spec P a i : Good a -> i < xlen a -> x_get P a i = Ok (N.b2n (N.testbit (val a) i)).
+Proof.
+  intros Ha Hi. unfold x_get. apply v_get_spec; [apply Good_pos|apply Good_wv|]; assumption.
+Qed.
+
+Theorem x_get_debug_oob a i : xlen a <= i -> x_get Debug a i = Panic.
+Proof. intros H. apply v_get_debug_oob. assumption. Qed.
+
+Lemma pow2_testbit i j : N.testbit (pow2 i) j = (i =? j).
+Proof. rewrite pow2_eq. apply N.pow2_bits_eqb. Qed.
+
+Lemma set_val r r' i b :
+  b <= 1 -> (forall j, N.testbit r' j = if j =? i then (b =? 1) else N.testbit r j) ->
+  r' = if b =? 0 then N.ldiff r (pow2 i) else N.lor r (pow2 i).
+Proof.
+  intros Hb H. apply N.bits_inj. intro j. rewrite H.
+  destruct (N.eqb_spec b 0) as [->|Hb0].
+  - rewrite N.ldiff_spec, pow2_testbit. rewrite (N.eqb_sym i j).
+    destruct (j =? i); cbn [negb]; [rewrite andb_false_r|rewrite andb_true_r]; reflexivity.
+  - assert (b = 1) as -> by lia. rewrite N.lor_spec, pow2_testbit, (N.eqb_sym i j).
+    destruct (j =? i); [rewrite orb_true_r|rewrite orb_false_r]; reflexivity.
+Qed.
+
+Theorem x_set_spec P a i b : Good a -> i < xlen a -> b <= 1 ->
+  exists r, x_set P a i b = Ok r /\ Good r /\ kind_of r = kind_of a /\ abs r = s_set (abs a) i b.
+Proof.
+  intros Ha Hi Hb. unfold x_set.
+  destruct (v_set_spec P (xw a) (xv a) i b (Good_pos a Ha) (Good_wv a Ha) Hi Hb) as (v' & -> & Hc & Hl & Hn & Hbits).
+  cbn [bind]. eexists. split; [reflexivity|].
+  apply Good_with; [assumption|assumption|left; exact Hn|].
+  rewrite (abs_Good a Ha). unfold s_set. cbn [blen bval]. rewrite Hl. f_equal.
+  apply set_val; assumption.
+Qed.
+
+Theorem x_set_debug_oob a i b : xlen a <= i -> x_set Debug a i b = Panic.
+Proof. intros H. unfold x_set. rewrite v_set_debug_oob by assumption. reflexivity. Qed.
+
+(* ------------------------------------------------------------------ promotion / demotion of Bv *)
+
+(* a list whose words are the w-bit digits of R (and R fits) has raw value R *)
+Lemma raw_of_digits w d R :
+  0 < w -> (forall i, i < lenw d -> getw d i = (R / 2 ^ (w * i)) mod 2 ^ w) -> R < 2 ^ (w * lenw d) ->
+  words_ok w d /\ raw w d = R.
+Proof.
+  intros Hw Hg HR.
+  assert (words_ok w d) as Hd.
+  { apply words_ok_getw. intros i Hi. rewrite Hg by assumption. apply N.mod_lt, pow2_ne0. }
+  split; [assumption|]. apply N.bits_inj. intro b. rewrite (raw_testbit w Hw) by assumption.
+  pose proof (div_mod_eq b w) as Eb. pose proof (mod_lt' b w Hw) as Hm.
+  destruct (N.lt_ge_cases (b / w) (lenw d)) as [Hlt|Hge].
+  - rewrite Hg by assumption. rewrite mod_pow2_testbit, div_pow2_testbit.
+    apply N.ltb_lt in Hm. rewrite Hm. cbn [andb]. f_equal. lia.
+  - rewrite getw_high by assumption. rewrite N.bits_0. symmetry.
+    apply (testbit_high R (w * lenw d)); [assumption|].
+    assert (w * lenw d <= w * (b / w)) by (apply N.mul_le_mono_l; assumption). lia.
+Qed.
+
+Lemma widths_64 : widths_ok 64 64.
+Proof. apply std_widths_ok; apply std_width_64. Qed.
+
+(* From<&Bvf<u64,N>> for Bvd: copies the used words *)
+Lemma d_from_f_spec v : canon_wv 64 v ->
+  exists d, d_from_f 64 v = Ok d /\ canon_wv 64 d /\ wl d = wl v /\ raw 64 (wd d) = raw 64 (wd v).
+Proof.
+  intros Hc. pose proof Hc as (Hd & Hl & Hr). unfold d_from_f, W64.
+  set (g := fun i => (raw 64 (wd v) / 2 ^ (64 * i)) mod 2 ^ 64).
+  rewrite (omap_list_ok _ g).
+  2:{ intros i Hi. apply In_nrange in Hi. rewrite (v_get_int_spec 64 64 v i widths_64 Hc).
+      assert (i * 64 <? wl v = true) as ->; [|reflexivity].
+      apply N.ltb_lt. unfold v_int_len in Hi.
+      destruct (N.lt_ge_cases (i * 64) (wl v)) as [|Hge]; [assumption|exfalso].
+      assert ((wl v + 64 - 1) / 64 <= i) by (apply (ceil_div_spec (wl v) 64); lia). lia. }
+  cbn [bind]. eexists. split; [reflexivity|]. cbn [wd wl].
+  set (k := v_int_len 64 v).
+  assert (wl v <= 64 * k) as Hk by (unfold k, v_int_len; apply (ceil_div_spec (wl v) 64); lia).
+  destruct (raw_of_digits 64 (map g (nrange k)) (raw 64 (wd v))) as [Hd' Hr']; [lia| | |].
+  - intros i Hi. rewrite lenw_map_nrange in Hi. rewrite getw_map_nrange.
+    apply N.ltb_lt in Hi. rewrite Hi. reflexivity.
+  - rewrite lenw_map_nrange. eapply N.lt_le_trans; [exact Hr|]. apply pow2_le. assumption.
+  - split; [|split; [reflexivity|assumption]].
+    split; [assumption|]. cbn [wd wl]. rewrite lenw_map_nrange, Hr'. split; assumption.
+Qed.
+
+(* TryFrom<&Bvd> for Bvf<u64,2> when the length fits *)
+Lemma f_from_d_spec v : canon_wv 64 v -> wl v <= 128 ->
+  exists r, f_from_d 64 2 v = Ok r /\ canon_wv 64 r /\ wl r = wl v /\ lenw (wd r) = 2 /\ raw 64 (wd r) = raw 64 (wd v).
+Proof.
+  intros Hc Hle. pose proof Hc as (Hd & Hl & Hr). unfold f_from_d.
+  assert (64 * 2 <? wl v = false) as -> by (apply N.ltb_ge; lia).
+  eexists. split; [reflexivity|]. cbn [wd wl].
+  set (d := mapi _ _).
+  assert (lenw d = 2) as Hl2 by (unfold d; rewrite lenw_mapi; apply lenw_zerosw).
+  destruct (raw_of_digits 64 d (raw 64 (wd v))) as [Hd' Hr']; [lia| | |].
+  - intros i Hi. unfold d. rewrite getw_mapi by (rewrite lenw_zerosw; lia).
+    apply (v_get_int_digits 64 64 v widths_64 Hc).
+  - rewrite Hl2. eapply N.lt_le_trans; [exact Hr|]. apply pow2_le. lia.
+  - split; [|split; [reflexivity|split; assumption]].
+    split; [assumption|]. cbn [wd wl]. rewrite Hl2, Hr'. split; [lia|assumption].
+Qed.
+
+(* ------------------------------------------------------------------ reserve *)
+
+Lemma x_reserve_gen a k : Good a ->
+  exists r, x_reserve a k = Ok r /\ Good r /\ kind_of r = kind_of a /\ abs r = abs a /\
+            (kind_fixed (kind_of a) = false -> xlen a + k <= x_capacity r).
+Proof.
+  intros Ha. pose proof (Good_wv a Ha) as Hc. pose proof (abs_Good a Ha) as Eabs.
+  destruct a as [w v|v|[|] v]; cbn [x_reserve xw xv kind_of kind_fixed] in *.
+  - exists (XF w v). split; [reflexivity|]. split; [assumption|]. split; [reflexivity|]. split; [reflexivity|discriminate].
+  - destruct (d_reserve_spec v k Hc) as (Hc' & Hl' & Hr' & Hcap & _).
+    eexists. split; [reflexivity|].
+    destruct (make_D (d_reserve v k) (abs (XD v)) Hc') as (HG & _ & Habs); [rewrite Hl', Hr', Eabs; reflexivity|].
+    split; [assumption|]. split; [reflexivity|]. split; [assumption|]. intros _. exact Hcap.
+  - unfold BVP_CAP, BVP_W. destruct (N.ltb_spec 128 (wl v + k)) as [Hlt|Hge].
+    + destruct (d_from_f_spec v Hc) as (d & -> & Hcd & Hld & Hrd). cbn [bind].
+      destruct (d_reserve_spec d k Hcd) as (Hc' & Hl' & Hr' & Hcap & _).
+      eexists. split; [reflexivity|].
+      destruct (make_A false (d_reserve d k) (abs (XA true v)) Hc') as (HG & _ & Habs);
+        [discriminate|rewrite Hl', Hr', Hld, Hrd, Eabs; reflexivity|].
+      split; [assumption|]. split; [reflexivity|]. split; [assumption|]. intros _.
+      cbn [x_capacity xw xdata xv]. unfold capw, xdata, xlen. cbn [xv]. rewrite <- Hld. exact Hcap.
+    + exists (XA true v). split; [reflexivity|]. split; [assumption|]. split; [reflexivity|]. split; [reflexivity|].
+      intros _. exact Hge.
+  - destruct (d_reserve_spec v k Hc) as (Hc' & Hl' & Hr' & Hcap & _).
+    eexists. split; [reflexivity|].
+    destruct (make_A false (d_reserve v k) (abs (XA false v)) Hc') as (HG & _ & Habs);
+      [discriminate|rewrite Hl', Hr', Eabs; reflexivity|].
+    split; [assumption|]. split; [reflexivity|]. split; [assumption|]. intros _. exact Hcap.
+Qed.
+
+Theorem x_reserve_spec a k : Good a -> is_fixed a = false \/ (exists fx v, a = XA fx v) ->
+  exists r, x_reserve a k = Ok r /\ Good r /\ kind_of r = kind_of a /\ abs r = abs a /\
+            (kind_fixed (kind_of a) = false -> xlen a + k <= x_capacity r).
+Proof. intros Ha _. apply x_reserve_gen. assumption. Qed.
+
+Lemma xlen_of_abs r a : abs r = abs a -> xlen r = xlen a.
+Proof. intros H. rewrite <- !blen_abs, H. reflexivity. Qed.
+
+(* ------------------------------------------------------------------ push / pop *)
+
+Lemma fits_fixed a n : is_fixed a = true -> Canon a -> n <= x_capacity a -> fits (kind_of a) n = true.
+Proof.
+  intros Hf Hc Hn. rewrite (cap_eq a Hc) in Hn. unfold fits.
+  destruct a as [w v|v|[|] v]; cbn [kind_of kind_fixed kind_cap negb orb xw xdata xv] in *; try reflexivity.
+  apply N.leb_le. exact Hn.
+Qed.
+
+Lemma fits_false_inv a n : fits (kind_of a) n = false -> is_fixed a = true /\ xw a * lenw (xdata a) < n.
+Proof.
+  unfold fits. destruct a as [w v|v|fx v]; cbn [kind_of kind_fixed kind_cap negb orb]; try discriminate.
+  intros H. apply N.leb_gt in H. split; [reflexivity|exact H].
+Qed.
+
+
+
+Lemma push_val va b len : b <= 1 -> va + b * 2 ^ len = va + N.shiftl (if b =? 0 then 0 else 1) len.
+Proof.
+  intros Hb. rewrite N.shiftl_mul_pow2. destruct (N.eqb_spec b 0) as [->|]; [reflexivity|].
+  assert (b = 1) as -> by lia. reflexivity.
+Qed.
+
+Lemma core_push_dyn P x b : Good x -> is_fixed x = false -> b <= 1 ->
+  exists r, core_push P x b = Ok r /\ Good r /\ kind_of r = kind_of x /\ abs r = s_push (abs x) b.
+Proof.
+  intros Hx Hf Hb. unfold core_push. rewrite Hf.
+  assert (xw x = 64) as Ew by (destruct x as [w v|v|[|] v]; try reflexivity; discriminate).
+  pose proof (Good_wv x Hx) as Hc. rewrite Ew in Hc.
+  destruct (d_push_spec P (xv x) b Hc Hb) as (v' & -> & Hc' & Hl' & Hr'). cbn [bind].
+  eexists. split; [reflexivity|].
+  apply Good_with; [assumption|rewrite Ew; assumption|right; assumption|].
+  rewrite (abs_Good x Hx). unfold s_push, s_concat. cbn [blen bval]. rewrite Ew, Hl', Hr'.
+  unfold val, xlen, xdata. rewrite Ew. f_equal. apply push_val. assumption.
+Qed.
+
+Lemma core_push_fix P x b : Good x -> is_fixed x = true -> b <= 1 -> xlen x < x_capacity x ->
+  exists r, core_push P x b = Ok r /\ Good r /\ kind_of r = kind_of x /\ abs r = s_push (abs x) b.
+Proof.
+  intros Hx Hf Hb Hcap. unfold core_push. rewrite Hf. rewrite (cap_eq x (proj1 Hx)) in Hcap.
+  destruct (f_push_spec P (xw x) (xv x) b (Good_pos x Hx) (Good_wv x Hx) Hb Hcap) as (v' & -> & Hc' & Hl' & Hn' & Hr').
+  cbn [bind]. eexists. split; [reflexivity|].
+  apply Good_with; [assumption|assumption|left; exact Hn'|].
+  rewrite (abs_Good x Hx). unfold s_push, s_concat. cbn [blen bval]. rewrite Hl', Hr'.
+  unfold val, xlen, xdata. f_equal. apply push_val. assumption.
+Qed.
+
+Lemma core_push_full P x b : is_fixed x = true -> xw x * lenw (xdata x) <= xlen x -> core_push P x b = Panic.
+Proof.
+  intros Hf H. unfold core_push. rewrite Hf. rewrite f_push_full_panics by exact H. reflexivity.
+Qed.
+
+Theorem x_push_spec P a b : Good a -> b <= 1 ->
+  (fits (kind_of a) (xlen a + 1) = false -> x_push P a b = Panic) /\
+  (fits (kind_of a) (xlen a + 1) = true ->
+   exists r, x_push P a b = Ok r /\ Good r /\ kind_of r = kind_of a /\ abs r = s_push (abs a) b).
+Proof.
+  intros Ha Hb. split.
+  - intros H. destruct a as [w v|v|fx v]; [|discriminate H|discriminate H].
+    apply fits_false_inv in H. destruct H as [Hf H].
+    cbn [x_push]. apply core_push_full; [assumption|lia].
+  - intros H. destruct a as [w v|v|fx v]; cbn [x_push].
+    + apply core_push_fix; [assumption|reflexivity|assumption|].
+      unfold fits in H. cbn [kind_of kind_fixed kind_cap negb orb] in H. apply N.leb_le in H.
+      cbn [x_capacity xw xdata xv]. unfold capw, xdata, xlen in *. cbn [xv] in *. lia.
+    + apply core_push_dyn; [assumption|reflexivity|assumption].
+    + destruct (x_reserve_gen (XA fx v) 1 Ha) as (x1 & -> & H1 & Hk1 & Habs1 & Hcap1). cbn [bind].
+      specialize (Hcap1 eq_refl). pose proof (xlen_of_abs _ _ Habs1) as El.
+      rewrite <- Hk1, <- Habs1.
+      destruct (is_fixed x1) eqn:Hf1.
+      * apply core_push_fix; [assumption|assumption|assumption|lia].
+      * apply core_push_dyn; assumption.
+Qed.
+
+Theorem x_pop_spec P a : Good a ->
+  exists r o, x_pop P a = Ok (r, o) /\ Good r /\ kind_of r = kind_of a /\
+    (xlen a = 0 -> abs r = abs a /\ o = None) /\
+    (0 < xlen a -> abs r = s_slice (abs a) 0 (xlen a - 1) /\ o = Some (N.b2n (N.testbit (val a) (xlen a - 1)))).
+Proof.
+  intros Ha. unfold x_pop.
+  destruct (v_pop_spec P (xw a) (xv a) (Good_pos a Ha) (Good_wv a Ha)) as (v' & o & -> & Hc' & Hn' & H0 & H1).
+  cbn [bind]. eexists _, _. split; [reflexivity|].
+  destruct (Good_with a v' _ Ha Hc' (or_introl Hn') eq_refl) as (HG & HK & Habs).
+  split; [assumption|]. split; [assumption|]. split.
+  - intros Hz. destruct (H0 Hz) as [-> ->]. rewrite x_with_id. split; reflexivity.
+  - intros Hp. destruct (H1 Hp) as (Hl' & Hr' & ->). split; [|reflexivity].
+    rewrite Habs, (abs_Good a Ha). unfold s_slice. cbn [blen bval].
+    rewrite N.sub_0_r, N.shiftr_0_r, trunc_mod, Hl', Hr'. reflexivity.
+Qed.
+
+(* ------------------------------------------------------------------ resize / truncate / sign_extend *)
+
+Lemma resize_val len n b va :
+  mkbv n (if n <? len then va mod 2 ^ n else va + (if b =? 0 then 0 else 2 ^ n - 2 ^ len)) = s_resize (mkbv len va) n b.
+Proof.
+  unfold s_resize, s_slice, s_concat, s_fill. cbn [blen bval].
+  destruct (N.ltb_spec n len) as [H|H].
+  - rewrite N.sub_0_r, N.shiftr_0_r, trunc_mod. reflexivity.
+  - destruct (N.eqb_spec b 0) as [_|_]; unfold s_zeros, s_ones; cbn [blen bval].
+    + rewrite N.shiftl_0_l. f_equal; lia.
+    + rewrite N.shiftl_mul_pow2, ones_eq, (pow2_split len n H).
+      pose proof (pow2_pos (n - len)). pose proof (pow2_pos len). f_equal; [lia|]. nia.
+Qed.
+
+Lemma nonfixed_w64 x : is_fixed x = false -> xw x = 64.
+Proof. destruct x as [w v|v|[|] v]; try reflexivity; discriminate. Qed.
+
+Lemma core_resize_spec x n b : Good x -> b <= 1 -> (is_fixed x = true -> n <= x_capacity x) ->
+  exists r, core_resize x n b = Ok r /\ Good r /\ kind_of r = kind_of x /\ abs r = s_resize (abs x) n b.
+Proof.
+  intros Hx Hb Hcap. unfold core_resize. rewrite (cap_eq x (proj1 Hx)) in Hcap.
+  destruct (v_resize_spec (is_fixed x) (xw x) (xv x) n b (Good_pos x Hx)) as (v' & -> & Hc' & Hl' & Hn' & _ & Hr');
+    [apply nonfixed_w64|apply Good_wv; assumption|assumption|exact Hcap|].
+  cbn [bind]. eexists. split; [reflexivity|].
+  apply Good_with; [assumption|assumption| |].
+  - destruct (is_fixed x); [left; apply Hn'; reflexivity|right; reflexivity].
+  - rewrite (abs_Good x Hx), Hl', Hr'. apply resize_val.
+Qed.
+
+Lemma core_resize_panic x n b : is_fixed x = true -> xlen x < n -> xw x * lenw (xdata x) < n -> core_resize x n b = Panic.
+Proof.
+  intros Hf H1 H2. unfold core_resize. rewrite Hf, f_resize_overflow_panics by assumption. reflexivity.
+Qed.
+
+Theorem x_resize_spec a n b : Good a -> b <= 1 ->
+  (fits (kind_of a) n = false -> xlen a < n -> x_resize a n b = Panic) /\
+  (fits (kind_of a) n = true \/ n <= xlen a ->
+   exists r, x_resize a n b = Ok r /\ Good r /\ kind_of r = kind_of a /\ abs r = s_resize (abs a) n b).
+Proof.
+  intros Ha Hb. pose proof (len_le_capacity a (proj1 Ha)) as Hlc. split.
+  - intros H Hlt. destruct a as [w v|v|fx v]; [|discriminate H|discriminate H].
+    apply fits_false_inv in H. destruct H as [Hf H]. cbn [x_resize]. apply core_resize_panic; assumption.
+  - intros H. destruct a as [w v|v|fx v]; cbn [x_resize].
+    + apply core_resize_spec; [assumption|assumption|]. intros _.
+      destruct H as [H|H]; [|lia].
+      unfold fits in H. cbn [kind_of kind_fixed kind_cap negb orb] in H. apply N.leb_le in H.
+      cbn [x_capacity xw xdata xv]. unfold capw, xdata. cbn [xv]. exact H.
+    + apply core_resize_spec; [assumption|assumption|discriminate].
+    + destruct (N.ltb_spec (xlen (XA fx v)) n) as [Hlt|Hge].
+      * destruct (x_reserve_gen (XA fx v) (n - xlen (XA fx v)) Ha) as (x1 & -> & H1 & Hk1 & Habs1 & Hcap1). cbn [bind].
+        specialize (Hcap1 eq_refl). rewrite <- Hk1, <- Habs1.
+        apply core_resize_spec; [assumption|assumption|]. intros _. lia.
+      * cbn [bind]. apply core_resize_spec; [assumption|assumption|]. intros _. lia.
+Qed.
+
+Theorem x_truncate_spec a n : Good a ->
+  exists r, x_truncate a n = Ok r /\ Good r /\ kind_of r = kind_of a /\ abs r = s_truncate (abs a) n.
+Proof.
+  intros Ha. unfold x_truncate, s_truncate. rewrite blen_abs.
+  destruct (N.ltb_spec n (xlen a)) as [H|H].
+  - destruct (x_resize_spec a n 0 Ha) as [_ Hr]; [lia|].
+    destruct Hr as (r & E & HG & HK & Habs); [right; lia|].
+    exists r. split; [assumption|]. split; [assumption|]. split; [assumption|].
+    rewrite Habs. unfold s_resize. rewrite blen_abs. apply N.ltb_lt in H. rewrite H. reflexivity.
+  - exists a. repeat split; try reflexivity; apply Ha.
+Qed.
+
+Lemma b2n_le1 (c : bool) : N.b2n c <= 1.
+Proof. destruct c; cbn; lia. Qed.
+
+Theorem x_sign_extend_spec P a n : Good a ->
+  (fits (kind_of a) n = false -> xlen a < n -> x_sign_extend P a n = Panic) /\
+  (fits (kind_of a) n = true \/ n <= xlen a ->
+   exists r, x_sign_extend P a n = Ok r /\ Good r /\ kind_of r = kind_of a /\ abs r = s_sign_extend (abs a) n).
+Proof.
+  intros Ha. unfold x_sign_extend, s_sign_extend. rewrite blen_abs.
+  assert ((if xlen a =? 0 then Ok 0 else x_get P a (xlen a - 1)) = Ok (s_top (abs a))) as Esign.
+  { unfold s_top. rewrite blen_abs. destruct (N.eqb_spec (xlen a) 0) as [H0|H0]; [reflexivity|].
+    rewrite x_get_spec by (assumption || lia). rewrite (abs_Good a Ha). reflexivity. }
+  assert (s_top (abs a) <= 1) as Htop.
+  { unfold s_top. destruct (blen (abs a) =? 0); [lia|apply b2n_le1]. }
+  destruct (x_resize_spec a n (s_top (abs a)) Ha Htop) as [Hp Hr].
+  destruct (N.ltb_spec (xlen a) n) as [H|H].
+  - rewrite Esign. cbn [bind]. split.
+    + intros Hf _. apply Hp; assumption.
+    + exact Hr.
+  - split; [intros _ Hlt; lia|]. intros _. exists a. repeat split; try reflexivity; apply Ha.
+Qed.
+
+(* ------------------------------------------------------------------ shrink_to_fit *)
+
+Lemma cfbl_d_cap64 len : 64 * cfbl_d len = 64 * ((len + 63) / 64).
+Proof. rewrite cfbl_d_eq'. reflexivity. Qed.
+
+(* the intended reading: every component holds, also for the fixed type *)
+Lemma x_shrink_to_fit_strong a : Good a ->
+  exists r, x_shrink_to_fit a = Ok r /\ Good r /\ kind_of r = kind_of a /\ abs r = abs a /\
+            x_capacity r <= fresh_cap (kind_of a) (xlen a).
+Proof.
+  intros Ha. pose proof (Good_wv a Ha) as Hc. pose proof (abs_Good a Ha) as Eabs.
+  pose proof (len_le_capacity a (proj1 Ha)) as Hlc.
+  destruct a as [w v|v|[|] v]; cbn [x_shrink_to_fit xw xv kind_of fresh_cap] in *.
+  - exists (XF w v). split; [reflexivity|]. split; [assumption|]. split; [reflexivity|]. split; [reflexivity|].
+    cbn [x_capacity xw xdata xv]. unfold capw, xdata. cbn [xv]. apply N.le_refl.
+  - destruct (d_shrink_spec v Hc) as (Hc' & Hl' & Hr' & _ & Hn').
+    eexists. split; [reflexivity|].
+    destruct (make_D (d_shrink_to_fit v) (abs (XD v)) Hc') as (HG & _ & Habs); [rewrite Hl', Hr', Eabs; reflexivity|].
+    split; [assumption|]. split; [reflexivity|]. split; [assumption|].
+    cbn [x_capacity xw xdata xv]. unfold capw, xdata, xlen. cbn [xv].
+    rewrite Hn' by (apply cfbl_d_le; apply Hc). rewrite cfbl_d_cap64. apply N.le_refl.
+  - exists (XA true v). split; [reflexivity|]. split; [assumption|]. split; [reflexivity|]. split; [reflexivity|].
+    cbn [x_capacity] in *. unfold BVP_CAP in *. apply N.leb_le in Hlc. rewrite Hlc. apply N.le_refl.
+  - unfold BVP_CAP, BVP_W, BVP_N. unfold xlen. cbn [xv]. destruct (N.leb_spec (wl v) 128) as [Hle|Hgt].
+    + destruct (f_from_d_spec v Hc Hle) as (r & -> & Hcr & Hlr & Hnr & Hrr).
+      eexists. split; [reflexivity|].
+      destruct (make_A true r (abs (XA false v)) Hcr) as (HG & _ & Habs);
+        [intros _; assumption|rewrite Hlr, Hrr, Eabs; reflexivity|].
+      split; [assumption|]. split; [reflexivity|]. split; [assumption|].
+      cbn [x_capacity]. unfold BVP_CAP. apply N.le_refl.
+    + destruct (d_shrink_spec v Hc) as (Hc' & Hl' & Hr' & _ & Hn').
+      eexists. split; [reflexivity|].
+      destruct (make_A false (d_shrink_to_fit v) (abs (XA false v)) Hc') as (HG & _ & Habs);
+        [discriminate|rewrite Hl', Hr', Eabs; reflexivity|].
+      split; [assumption|]. split; [reflexivity|]. split; [assumption|].
+      cbn [x_capacity xw xdata xv]. unfold capw, xdata. cbn [xv].
+      rewrite Hn' by (apply cfbl_d_le; apply Hc). rewrite cfbl_d_cap64. apply N.le_refl.
+Qed.
+
+(* As written the statement parses as  exists r, (.. /\ .. /\ capacity bound) \/ (a is fixed); it is
+   true (and implied by the strong form above, whose left disjunct holds for all three types). *)
+Theorem x_shrink_to_fit_spec a : Good a ->
+  exists r, x_shrink_to_fit a = Ok r /\ Good r /\ kind_of r = kind_of a /\ abs r = abs a /\
+            x_capacity r <= fresh_cap (kind_of a) (xlen a) \/ (exists w v, a = XF w v).
+Proof.
+  intros Ha. destruct (x_shrink_to_fit_strong a Ha) as (r & H). exists r. left. exact H.
+Qed.
+
+(* ------------------------------------------------------------------ copy_range / split_off *)
+
+Lemma slice_val len va s e : mkbv (e - s) ((va / 2 ^ s) mod 2 ^ (e - s)) = s_slice (mkbv len va) s e.
+Proof. unfold s_slice. cbn [blen bval]. rewrite trunc_mod, N.shiftr_div_pow2. reflexivity. Qed.
+
+Theorem x_copy_range_spec P a s e : Good a -> s <= e -> e <= xlen a ->
+  exists r, x_copy_range P a s e = Ok r /\ Good r /\ kind_of r = kind_of a /\ abs r = s_slice (abs a) s e.
+Proof.
+  intros Ha Hse He. pose proof (Good_wv a Ha) as Hc. pose proof (abs_Good a Ha) as Eabs.
+  rewrite Eabs, <- slice_val. unfold val, xdata, xlen in *.
+  destruct a as [w v|v|[|] v]; cbn [x_copy_range xw xv kind_of] in *.
+  - destruct (f_copy_range_spec P w v s e (Good_pos _ Ha) Hc Hse He) as (r & -> & Hcr & Hlr & Hnr & Hrr). cbn [bind].
+    eexists. split; [reflexivity|].
+    destruct (make_F w (lenw (wd r)) r (mkbv (e - s) ((raw w (wd v) / 2 ^ s) mod 2 ^ (e - s))) (proj2 Ha) Hcr eq_refl)
+      as (HG & _ & Habs); [rewrite Hlr, Hrr; reflexivity|].
+    split; [assumption|]. split; [cbn [kind_of]; rewrite Hnr; reflexivity|assumption].
+  - destruct (d_copy_range_spec P v s e Hc Hse He) as (r & -> & Hcr & Hlr & Hnr & Hrr). cbn [bind].
+    eexists. split; [reflexivity|].
+    destruct (make_D r (mkbv (e - s) ((raw 64 (wd v) / 2 ^ s) mod 2 ^ (e - s))) Hcr) as (HG & _ & Habs);
+      [rewrite Hlr, Hrr; reflexivity|].
+    split; [assumption|]. split; [reflexivity|assumption].
+  - unfold BVP_W.
+    destruct (f_copy_range_spec P 64 v s e ltac:(lia) Hc Hse He) as (r & -> & Hcr & Hlr & Hnr & Hrr). cbn [bind].
+    eexists. split; [reflexivity|].
+    destruct (make_A true r (mkbv (e - s) ((raw 64 (wd v) / 2 ^ s) mod 2 ^ (e - s))) Hcr) as (HG & _ & Habs);
+      [intros _; rewrite Hnr; apply Ha|rewrite Hlr, Hrr; reflexivity|].
+    split; [assumption|]. split; [reflexivity|assumption].
+  - destruct (d_copy_range_spec P v s e Hc Hse He) as (r & -> & Hcr & Hlr & Hnr & Hrr). cbn [bind].
+    unfold BVP_CAP, BVP_W, BVP_N. destruct (N.leb_spec (wl r) 128) as [Hle|Hgt].
+    + destruct (f_from_d_spec r Hcr Hle) as (f & -> & Hcf & Hlf & Hnf & Hrf).
+      eexists. split; [reflexivity|].
+      destruct (make_A true f (mkbv (e - s) ((raw 64 (wd v) / 2 ^ s) mod 2 ^ (e - s))) Hcf) as (HG & _ & Habs);
+        [intros _; assumption|rewrite Hlf, Hrf, Hlr, Hrr; reflexivity|].
+      split; [assumption|]. split; [reflexivity|assumption].
+    + eexists. split; [reflexivity|].
+      destruct (make_A false r (mkbv (e - s) ((raw 64 (wd v) / 2 ^ s) mod 2 ^ (e - s))) Hcr) as (HG & _ & Habs);
+        [discriminate|rewrite Hlr, Hrr; reflexivity|].
+      split; [assumption|]. split; [reflexivity|assumption].
+Qed.
+
+Theorem x_copy_range_debug_oob a s e : xlen a < s \/ xlen a < e -> x_copy_range Debug a s e = Panic.
+Proof.
+  intros H. destruct a as [w v|v|[|] v]; cbn [x_copy_range];
+    rewrite ?f_copy_range_debug_oob, ?d_copy_range_debug_oob by exact H; reflexivity.
+Qed.
+
+Lemma resize_down_val len va i : va < 2 ^ len -> i <= len -> s_resize (mkbv len va) i 0 = s_slice (mkbv len va) 0 i.
+Proof.
+  intros Hv Hi. unfold s_resize. cbn [blen]. destruct (N.ltb_spec i len) as [H|H]; [reflexivity|].
+  assert (i = len) as -> by lia.
+  unfold s_concat, s_slice, s_fill, s_zeros. change (0 =? 0) with true. cbn [blen bval].
+  rewrite N.sub_diag, N.shiftl_0_l, N.shiftr_0_r, N.sub_0_r, trunc_small by assumption. f_equal; lia.
+Qed.
+
+Theorem x_split_off_spec P a i : Good a -> i <= xlen a ->
+  exists lo hi, x_split_off P a i = Ok (lo, hi) /\ Good lo /\ Good hi /\ kind_of lo = kind_of a /\ kind_of hi = kind_of a /\
+    abs lo = s_slice (abs a) 0 i /\ abs hi = s_slice (abs a) i (xlen a).
+Proof.
+  intros Ha Hi. unfold x_split_off.
+  destruct (x_copy_range_spec P a i (xlen a) Ha Hi (N.le_refl _)) as (hi & -> & HGh & HKh & Hah). cbn [bind].
+  destruct (x_resize_spec a i 0 Ha) as [_ Hr]; [lia|].
+  destruct Hr as (lo & -> & HGl & HKl & Hal); [right; assumption|]. cbn [bind].
+  exists lo, hi. split; [reflexivity|]. repeat (split; [assumption|]). split; [|assumption].
+  rewrite Hal, (abs_Good a Ha). apply resize_down_val; [apply Good_val_lt; assumption|assumption].
+Qed.
+
+Theorem x_split_off_debug_oob a i : xlen a < i -> x_split_off Debug a i = Panic.
+Proof.
+  intros H. unfold x_split_off. rewrite x_copy_range_debug_oob by (left; assumption). reflexivity.
+Qed.
+
+(* ------------------------------------------------------------------ shifts by k *)
+
+Lemma shift_amount_small k len : len < 2 ^ 62 -> k < len -> shift_amount k = k.
+Proof.
+  intros Hl Hk. unfold shift_amount. rewrite pow2_eq.
+  assert (2 ^ 62 < 2 ^ 64) by (apply pow2_lt; lia).
+  destruct (N.ltb_spec k (2 ^ 64)); [reflexivity|lia].
+Qed.
+
+Lemma shift_amount_big k len : len < 2 ^ 62 -> len <= k -> len <= shift_amount k.
+Proof.
+  intros Hl Hk. unfold shift_amount. rewrite pow2_eq, ones_eq.
+  assert (2 ^ 62 < 2 ^ 64) by (apply pow2_lt; lia).
+  destruct (N.ltb_spec k (2 ^ 64)); lia.
+Qed.
+
+Lemma shl_val len va r k : len < 2 ^ 62 ->
+  (forall i, N.testbit r i = (shift_amount k <=? i) && (i <? len) && N.testbit va (i - shift_amount k)) ->
+  r = if k <? len then trunc len (N.shiftl va k) else 0.
+Proof.
+  intros Hl H. apply N.bits_inj. intro i. rewrite H. destruct (N.ltb_spec k len) as [Hk|Hk].
+  - rewrite (shift_amount_small k len Hl Hk), trunc_testbit, shiftl_testbit.
+    destruct (k <=? i); destruct (i <? len); reflexivity.
+  - pose proof (shift_amount_big k len Hl Hk) as Hb. rewrite N.bits_0.
+    destruct (N.leb_spec (shift_amount k) i); destruct (N.ltb_spec i len); cbn [andb]; try reflexivity; lia.
+Qed.
+
+Lemma shr_val len va r k : len < 2 ^ 62 -> va < 2 ^ len ->
+  (forall i, N.testbit r i = N.testbit va (i + shift_amount k)) ->
+  r = if k <? len then N.shiftr va k else 0.
+Proof.
+  intros Hl Hv H. apply N.bits_inj. intro i. rewrite H. destruct (N.ltb_spec k len) as [Hk|Hk].
+  - rewrite (shift_amount_small k len Hl Hk), shiftr_testbit. reflexivity.
+  - pose proof (shift_amount_big k len Hl Hk) as Hb. rewrite N.bits_0.
+    apply (testbit_high va len); [assumption|lia].
+Qed.
+
+Lemma x_shl_assign_spec a k : Good a -> xlen a < 2 ^ 62 ->
+  exists r, x_shl_assign a k = Ok r /\ Good r /\ kind_of r = kind_of a /\ abs r = s_shl (abs a) k.
+Proof.
+  intros Ha Hl. unfold x_shl_assign.
+  destruct (shl_assign_spec (xw a) (xv a) k (Good_pos a Ha) (Good_wv a Ha)) as (v' & -> & Hc' & Hl' & Hn' & Hb').
+  cbn [bind]. eexists. split; [reflexivity|].
+  apply Good_with; [assumption|assumption|left; exact Hn'|].
+  rewrite (abs_Good a Ha). unfold s_shl. cbn [blen bval]. rewrite Hl'. f_equal.
+  apply shl_val; assumption.
+Qed.
+
+Lemma x_shr_assign_spec a k : Good a -> xlen a < 2 ^ 62 ->
+  exists r, x_shr_assign a k = Ok r /\ Good r /\ kind_of r = kind_of a /\ abs r = s_shr (abs a) k.
+Proof.
+  intros Ha Hl. unfold x_shr_assign.
+  destruct (shr_assign_spec (xw a) (xv a) k (Good_pos a Ha) (Good_wv a Ha)) as (v' & -> & Hc' & Hl' & Hn' & Hb').
+  cbn [bind]. eexists. split; [reflexivity|].
+  apply Good_with; [assumption|assumption|left; exact Hn'|].
+  rewrite (abs_Good a Ha). unfold s_shr. cbn [blen bval]. rewrite Hl'. f_equal.
+  apply (shr_val (xlen a)); [assumption|apply Good_val_lt; assumption|assumption].
+Qed.
+
+(* shifts: k is the amount as passed by the caller (any native type), A1: lengths are below 2^62 *)
+Theorem x_shl_spec byref a k : Good a -> xlen a < 2 ^ 62 ->
+  exists r, x_shl byref a k = Ok r /\ Good r /\ kind_of r = kind_of a /\ abs r = s_shl (abs a) k.
+Proof.
+  intros Ha Hl. destruct a as [w v|v|fx v]; cbn [x_shl]; try (apply x_shl_assign_spec; assumption).
+  destruct byref; [|apply x_shl_assign_spec; assumption].
+  destruct (d_shl_ref_spec v k (Good_wv _ Ha)) as (v' & -> & Hc' & Hl' & _ & Hb'). cbn [bind].
+  eexists. split; [reflexivity|].
+  destruct (make_D v' (s_shl (abs (XD v)) k) Hc') as (HG & _ & Habs); [|split; [assumption|split; [reflexivity|assumption]]].
+  rewrite (abs_Good _ Ha). unfold s_shl. cbn [blen bval]. rewrite Hl'. f_equal.
+  apply shl_val; assumption.
+Qed.
+
+Theorem x_shr_spec byref a k : Good a -> xlen a < 2 ^ 62 ->
+  exists r, x_shr byref a k = Ok r /\ Good r /\ kind_of r = kind_of a /\ abs r = s_shr (abs a) k.
+Proof.
+  intros Ha Hl. destruct a as [w v|v|fx v]; cbn [x_shr]; try (apply x_shr_assign_spec; assumption).
+  destruct byref; [|apply x_shr_assign_spec; assumption].
+  destruct (d_shr_ref_spec v k (Good_wv _ Ha)) as (v' & -> & Hc' & Hl' & _ & Hb'). cbn [bind].
+  eexists. split; [reflexivity|].
+  destruct (make_D v' (s_shr (abs (XD v)) k) Hc') as (HG & _ & Habs); [|split; [assumption|split; [reflexivity|assumption]]].
+  rewrite (abs_Good _ Ha). unfold s_shr. cbn [blen bval]. rewrite Hl'. f_equal.
+  apply (shr_val (xlen (XD v))); [assumption|apply Good_val_lt; assumption|assumption].
+Qed.
+
+(* ------------------------------------------------------------------ shifts by one *)
+
+Lemma x_shl_in_eq a b :
+  x_shl_in a b = (x_with a (fst (v_shl_in (xw a) (xv a) b)), snd (v_shl_in (xw a) (xv a) b)).
+Proof. unfold x_shl_in. destruct (v_shl_in (xw a) (xv a) b). reflexivity. Qed.
+
+Lemma x_shr_in_eq a b :
+  x_shr_in a b = (x_with a (fst (v_shr_in (xw a) (xv a) b)), snd (v_shr_in (xw a) (xv a) b)).
+Proof. unfold x_shr_in. destruct (v_shr_in (xw a) (xv a) b). reflexivity. Qed.
+
+Lemma lt_pow2_0 x : x < 2 ^ 0 -> x = 0.
+Proof. change (2 ^ 0) with 1. lia. Qed.
+
+Theorem x_shl_in_spec a b : Good a -> b <= 1 ->
+  Good (fst (x_shl_in a b)) /\ kind_of (fst (x_shl_in a b)) = kind_of a /\
+  (abs (fst (x_shl_in a b)), snd (x_shl_in a b)) = s_shl_in (abs a) b.
+Proof.
+  intros Ha Hb. rewrite x_shl_in_eq. cbn [fst snd].
+  destruct (shl_in_spec (xw a) (xv a) b (Good_pos a Ha) (Good_wv a Ha) Hb) as (Hc' & Hl' & Hn' & Hr' & Hs').
+  destruct (Good_with a _ _ Ha Hc' (or_introl Hn') eq_refl) as (HG & HK & Habs).
+  split; [assumption|]. split; [assumption|].
+  rewrite Habs, Hs', Hl', Hr', (abs_Good a Ha). unfold s_shl_in. cbn [blen bval]. fold (xlen a).
+  pose proof (Good_val_lt a Ha) as Hv.
+  destruct (N.eqb_spec (xlen a) 0) as [H0|H0].
+  - rewrite H0 in Hv. rewrite (lt_pow2_0 _ Hv). reflexivity.
+  - rewrite trunc_mod. reflexivity.
+Qed.
+
+Theorem x_shr_in_spec a b : Good a -> b <= 1 ->
+  Good (fst (x_shr_in a b)) /\ kind_of (fst (x_shr_in a b)) = kind_of a /\
+  (abs (fst (x_shr_in a b)), snd (x_shr_in a b)) = s_shr_in (abs a) b.
+Proof.
+  intros Ha Hb. rewrite x_shr_in_eq. cbn [fst snd].
+  destruct (shr_in_spec (xw a) (xv a) b (Good_pos a Ha) (Good_wv a Ha) Hb) as (Hc' & Hl' & Hn' & Hr' & Hs').
+  destruct (Good_with a _ _ Ha Hc' (or_introl Hn') eq_refl) as (HG & HK & Habs).
+  split; [assumption|]. split; [assumption|].
+  rewrite Habs, Hs', Hl', Hr', (abs_Good a Ha). unfold s_shr_in. cbn [blen bval]. fold (xlen a).
+  pose proof (Good_val_lt a Ha) as Hv.
+  destruct (N.eqb_spec (xlen a) 0) as [H0|H0].
+  - rewrite H0 in Hv. rewrite (lt_pow2_0 _ Hv). reflexivity.
+  - rewrite N.shiftr_div_pow2, N.shiftl_mul_pow2. reflexivity.
+Qed.
+
+(* ------------------------------------------------------------------ rotations *)
+
+Lemma rotl_val len va r k : va < 2 ^ len -> r < 2 ^ len -> k <= len ->
+  (forall i, i < len -> N.testbit r ((i + k) mod len) = N.testbit va i) ->
+  r = trunc len (N.lor (N.shiftl va k) (N.shiftr va (len - k))).
+Proof.
+  intros Hv Hr Hk H. apply N.bits_inj. intro j.
+  rewrite trunc_testbit, N.lor_spec, shiftl_testbit, shiftr_testbit.
+  destruct (N.ltb_spec j len) as [Hj|Hj]; [|apply (testbit_high r len); assumption].
+  cbn [andb]. destruct (N.leb_spec k j) as [Hkj|Hkj]; cbn [andb].
+  - rewrite (testbit_high va len (j + (len - k))) by (assumption || lia). rewrite orb_false_r.
+    rewrite <- (H (j - k)) by lia. f_equal. replace (j - k + k) with j by lia. symmetry. apply N.mod_small. assumption.
+  - cbn [orb]. rewrite <- (H (j + (len - k))) by lia. f_equal.
+    replace (j + (len - k) + k) with (j + 1 * len) by lia. rewrite N.mod_add by lia. symmetry. apply N.mod_small. assumption.
+Qed.
+
+Lemma rotr_val len va r k : va < 2 ^ len -> r < 2 ^ len -> k <= len ->
+  (forall i, i < len -> N.testbit r i = N.testbit va ((i + k) mod len)) ->
+  r = trunc len (N.lor (N.shiftr va k) (N.shiftl va (len - k))).
+Proof.
+  intros Hv Hr Hk H. apply N.bits_inj. intro j.
+  rewrite trunc_testbit, N.lor_spec, shiftl_testbit, shiftr_testbit.
+  destruct (N.ltb_spec j len) as [Hj|Hj]; [|apply (testbit_high r len); assumption].
+  cbn [andb]. rewrite (H j Hj). destruct (N.leb_spec (len - k) j) as [Hkj|Hkj]; cbn [andb].
+  - rewrite (testbit_high va len (j + k)) by (assumption || lia). cbn [orb]. f_equal.
+    replace (j + k) with (j - (len - k) + 1 * len) by lia. rewrite N.mod_add by lia. apply N.mod_small. lia.
+  - rewrite orb_false_r. f_equal. apply N.mod_small. lia.
+Qed.
+
+Theorem x_rotl_spec a r : Good a -> r <= xlen a ->
+  exists x, x_rotl a r = Ok x /\ Good x /\ kind_of x = kind_of a /\ abs x = s_rotl (abs a) r.
+Proof.
+  intros Ha Hr. unfold x_rotl.
+  destruct (rotl_spec (xw a) (xv a) r (Good_pos a Ha) (Good_wv a Ha) Hr) as (v' & -> & Hc' & Hl' & Hn' & Hb').
+  cbn [bind]. eexists. split; [reflexivity|].
+  apply Good_with; [assumption|assumption|left; exact Hn'|].
+  rewrite (abs_Good a Ha). unfold s_rotl. cbn [blen bval]. rewrite Hl'. f_equal.
+  apply rotl_val; [apply Good_val_lt; assumption| |assumption|exact Hb'].
+  destruct Hc' as (_ & _ & H). rewrite Hl' in H. exact H.
+Qed.
+
+Theorem x_rotr_spec a r : Good a -> r <= xlen a ->
+  exists x, x_rotr a r = Ok x /\ Good x /\ kind_of x = kind_of a /\ abs x = s_rotr (abs a) r.
+Proof.
+  intros Ha Hr. unfold x_rotr.
+  destruct (rotr_spec (xw a) (xv a) r (Good_pos a Ha) (Good_wv a Ha) Hr) as (v' & -> & Hc' & Hl' & Hn' & Hb').
+  cbn [bind]. eexists. split; [reflexivity|].
+  apply Good_with; [assumption|assumption|left; exact Hn'|].
+  rewrite (abs_Good a Ha). unfold s_rotr. cbn [blen bval]. rewrite Hl'. f_equal.
+  apply rotr_val; [apply Good_val_lt; assumption| |assumption|exact Hb'].
+  destruct Hc' as (_ & _ & H). rewrite Hl' in H. exact H.
+Qed.
+
+(* ------------------------------------------------------------------ Extend / FromIterator *)
+
+Lemma fold_push_panic P bits :
+  fold_left (fun acc b => let! x := acc in x_push P x b) bits Panic = Panic.
+Proof. induction bits as [|b r IH]; [reflexivity|]. cbn [fold_left bind]. exact IH. Qed.
+
+Lemma fits_mono k m m' : m <= m' -> fits k m' = true -> fits k m = true.
+Proof.
+  intros Hm. unfold fits. destruct k as [w n| |]; cbn [kind_fixed kind_cap negb orb]; try reflexivity.
+  intros H. apply N.leb_le in H. apply N.leb_le. lia.
+Qed.
+
+Lemma fits_self a : Good a -> fits (kind_of a) (xlen a) = true.
+Proof.
+  intros [[(_ & Hl & _) _] _]. unfold fits.
+  destruct a as [w v|v|fx v]; cbn [kind_of kind_fixed kind_cap negb orb]; try reflexivity.
+  apply N.leb_le. exact Hl.
+Qed.
+
+Lemma concat_nil x : s_concat x (bv_of_bits []) = x.
+Proof.
+  destruct x as [n v]. unfold s_concat, bv_of_bits. cbn [blen bval val_of_bits].
+  rewrite lenw_nil, N.shiftl_0_l, !N.add_0_r. reflexivity.
+Qed.
+
+Lemma concat_push x b bits : s_concat (s_push x b) (bv_of_bits bits) = s_concat x (bv_of_bits (b :: bits)).
+Proof.
+  destruct x as [n v]. unfold s_push, s_concat, bv_of_bits. cbn [blen bval val_of_bits].
+  rewrite lenw_cons. f_equal; [lia|].
+  rewrite !N.shiftl_mul_pow2, pow2_add. change (2 ^ 1) with 2.
+  generalize (2 ^ n) as p. generalize (val_of_bits bits) as V. generalize (if b =? 0 then 0 else 1) as c.
+  intros c V p. lia.
+Qed.
+
+Lemma push_fold P bits : forall a, Good a -> Forall (fun b => b <= 1) bits ->
+  (fits (kind_of a) (xlen a + lenw bits) = false ->
+   fold_left (fun acc b => let! x := acc in x_push P x b) bits (Ok a) = Panic) /\
+  (fits (kind_of a) (xlen a + lenw bits) = true ->
+   exists r, fold_left (fun acc b => let! x := acc in x_push P x b) bits (Ok a) = Ok r /\ Good r /\
+             kind_of r = kind_of a /\ abs r = s_concat (abs a) (bv_of_bits bits)).
+Proof.
+  induction bits as [|b bits IH]; intros a Ha Hbits.
+  - rewrite lenw_nil, N.add_0_r, (fits_self a Ha). split; [discriminate|]. intros _.
+    exists a. split; [reflexivity|]. split; [assumption|]. split; [reflexivity|]. symmetry. apply concat_nil.
+  - inversion Hbits as [|b' r' Hb Hr]; subst b' r'. cbn [fold_left bind].
+    destruct (x_push_spec P a b Ha Hb) as [Hp Ho].
+    destruct (fits (kind_of a) (xlen a + 1)) eqn:E1.
+    + destruct (Ho eq_refl) as (r & -> & HG & HK & Habs).
+      assert (xlen r = xlen a + 1) as El.
+      { rewrite <- !blen_abs, Habs. reflexivity. }
+      destruct (IH r HG Hr) as [IP IO]. rewrite HK, El in IP, IO.
+      replace (xlen a + 1 + lenw bits) with (xlen a + lenw (b :: bits)) in IP, IO by (rewrite lenw_cons; lia).
+      split; [exact IP|]. intros Hf. destruct (IO Hf) as (r' & E & HG' & HK' & Habs').
+      exists r'. split; [exact E|]. split; [assumption|]. split; [assumption|].
+      rewrite Habs', Habs. apply concat_push.
+    + rewrite (Hp eq_refl), fold_push_panic. split; [reflexivity|]. intros Hf. exfalso.
+      rewrite (fits_mono (kind_of a) (xlen a + 1) (xlen a + lenw (b :: bits))) in E1; [discriminate| |assumption].
+      rewrite lenw_cons. lia.
+Qed.
+
+(* Extend / FromIterator: bits is the list of pushed bits (each 0 or 1) *)
+Theorem x_extend_spec P a hint bits : Good a -> Forall (fun b => b <= 1) bits ->
+  (fits (kind_of a) (xlen a + lenw bits) = false -> x_extend P a hint bits = Panic) /\
+  (fits (kind_of a) (xlen a + lenw bits) = true ->
+   exists r, x_extend P a hint bits = Ok r /\ Good r /\ kind_of r = kind_of a /\ abs r = s_concat (abs a) (bv_of_bits bits)).
+Proof.
+  intros Ha Hbits. unfold x_extend.
+  assert (exists x0, match a with XF _ _ => Ok a | _ => x_reserve a hint end = Ok x0 /\ Good x0 /\
+                     kind_of x0 = kind_of a /\ abs x0 = abs a) as (x0 & -> & H0 & HK0 & Habs0).
+  { destruct (x_reserve_gen a hint Ha) as (x1 & E & H1 & HK1 & Habs1 & _).
+    destruct a as [w v|v|fx v]; [exists (XF w v); repeat split; try reflexivity; apply Ha| |]; exists x1; auto. }
+  cbn [bind]. rewrite <- HK0, <- Habs0, <- (xlen_of_abs _ _ Habs0). apply push_fold; assumption.
+Qed.
+
+Lemma kind_of_matches k r : kind_matches k r = true -> kind_of r = k.
+Proof.
+  destruct k as [w n| |]; destruct r as [w' v|v|fx v]; cbn [kind_matches kind_of]; try discriminate; try reflexivity.
+  intros H. apply andb_true_iff in H. destruct H as [H1 H2]. apply N.eqb_eq in H1, H2. subst. reflexivity.
+Qed.
+
+Lemma kind_matches_of r : kind_matches (kind_of r) r = true.
+Proof. destruct r as [w v|v|fx v]; cbn [kind_matches kind_of]; try reflexivity. rewrite !N.eqb_refl. reflexivity. Qed.
+
+Lemma concat_empty x : s_concat (s_zeros 0) x = x.
+Proof.
+  destruct x as [n v]. unfold s_concat, s_zeros. cbn [blen bval].
+  rewrite N.shiftl_0_r, !N.add_0_l. reflexivity.
+Qed.
+
+Theorem k_from_iter_spec P k hint bits : kind_ok k -> Forall (fun b => b <= 1) bits ->
+  (fits k (lenw bits) = false -> k_from_iter P k hint bits = Panic) /\
+  (fits k (lenw bits) = true ->
+   exists r, k_from_iter P k hint bits = Ok r /\ Good r /\ kind_matches k r = true /\ abs r = bv_of_bits bits).
+Proof.
+  intros Hk Hbits. unfold k_from_iter.
+  destruct (k_with_capacity_spec k hint Hk) as (z & -> & Hz & HKz & Habsz & _). cbn [bind].
+  apply kind_of_matches in HKz.
+  assert (xlen z = 0) as Elz by (rewrite <- blen_abs, Habsz; reflexivity).
+  destruct (push_fold P bits z Hz Hbits) as [IP IO]. rewrite HKz, Elz, N.add_0_l in IP, IO.
+  split; [exact IP|]. intros Hf. destruct (IO Hf) as (r & E & HG & HK & Habs).
+  exists r. split; [exact E|]. split; [assumption|]. split.
+  - rewrite <- HK. apply kind_matches_of.
+  - rewrite Habs, Habsz. apply concat_empty.
+Qed.
